@@ -335,12 +335,14 @@ AxisOkE(T, axis, depth) ==
 \* the value, for ONE element e of type T at a node of depth `depth` (legality already checked).
 \* Union elements carry no tag in the value: the branch is chosen by shape.
 RECURSIVE AxisV(_, _, _, _, _)
-Fits(e, T) == CASE T.k \in {"var", "reg"} -> e.t = "list"
-                [] T.k = "rec" -> e.t = "rec"
+RECURSIVE Fits(_, _)
+Fits(e, T) == CASE T.k \in {"var", "reg"} -> e.t = "list" /\ \A j \in 1..Len(e.xs) : Fits(e.xs[j], T.x)
+                [] T.k = "rec" -> e.t = "rec" /\ Len(e.vs) = Len(T.xs) /\ \A j \in 1..Len(e.vs) : Fits(e.vs[j], T.xs[j])
                 [] T.k \in {"num"} -> e.t \in {"int", "nan"}
                 [] T.k \in {"str", "bytes"} -> e.t = "str"
-                [] T.k = "opt" -> TRUE
-                [] OTHER -> TRUE
+                [] T.k = "opt" -> IsNone(e) \/ Fits(e, T.x)
+                [] T.k = "union" -> \E j \in 1..Len(T.xs) : Fits(e, T.xs[j])
+                [] OTHER -> FALSE
 AxisV(o, e, T, axis, depth) ==
   LET pa == AxisWrap(T, axis) IN
   IF IsNone(e) THEN VNone
@@ -389,5 +391,68 @@ FlattenE(xs, T, axis, depth) ==
 VFlatten(v, T, axis) ==
   IF ~FlattenOkE(T, axis, 0) THEN Err
   ELSE Ok(VList(FlattenE(v.xs, T, axis, 0)))
+
+
+\* ---------------------------------------------------------------- reducers (C03)
+\* A group is a sequence of [i |-> position along the reduced axis, v |-> value].
+\* Identities that do not fit TLC's 32-bit integers are tokens: [t |-> "ident", r |-> "min"|"max"].
+VIdent(r) == [t |-> "ident", r |-> r]
+Reducers == {"count", "count_nonzero", "sum", "prod", "any", "all", "min", "max", "argmin", "argmax"}
+AllReduceArgs == [r : Reducers, mask : {0, 1}, kd : {0, 1}]
+RECURSIVE SeqProd(_)
+SeqProd(s) == IF s = <<>> THEN 1 ELSE Head(s) * SeqProd(Tail(s))
+
+LeafReduce(r, g, mask) ==
+  LET xs == [k \in 1..Len(g) |-> g[k].v.x] IN
+  IF g = <<>> /\ mask = 1 THEN VNone
+  ELSE CASE r = "count" -> VInt(Len(g))
+         [] r = "count_nonzero" -> VInt(Cardinality({k \in 1..Len(g) : xs[k] # 0}))
+         [] r = "sum" -> VInt(SeqSum(xs))
+         [] r = "prod" -> VInt(SeqProd(xs))
+         [] r = "any" -> VInt(IF \E k \in 1..Len(g) : xs[k] # 0 THEN 1 ELSE 0)
+         [] r = "all" -> VInt(IF \A k \in 1..Len(g) : xs[k] # 0 THEN 1 ELSE 0)
+         [] r = "min" -> IF g = <<>> THEN VIdent("min") ELSE VInt(SeqMin(xs))
+         [] r = "max" -> IF g = <<>> THEN VIdent("max") ELSE VInt(SeqMax(xs))
+         [] r = "argmin" -> IF g = <<>> THEN VInt(-1)
+                            ELSE VInt(g[CHOOSE k \in 1..Len(g) : xs[k] = SeqMin(xs) /\ \A m \in 1..(k - 1) : xs[m] # SeqMin(xs)].i)
+         [] r = "argmax" -> IF g = <<>> THEN VInt(-1)
+                            ELSE VInt(g[CHOOSE k \in 1..Len(g) : xs[k] = SeqMax(xs) /\ \A m \in 1..(k - 1) : xs[m] # SeqMax(xs)].i)
+
+\* combine the members of a group position by position (everything below the reduced level)
+RECURSIVE Combine(_, _, _, _)
+Combine(g, T, r, mask) ==
+  LET live == Select(g, LAMBDA m : ~IsNone(m.v)) IN
+  CASE T.k = "opt" -> Combine(live, T.x, r, mask)
+    [] T.k \in {"var", "reg"} ->
+         LET lens == [k \in 1..Len(live) |-> Len(live[k].v.xs)]
+             m == IF live = <<>> THEN 0 ELSE SeqMax(lens) IN
+         VList([j \in 1..m |->
+                  LET col == Select(live, LAMBDA mem : Len(mem.v.xs) >= j) IN
+                  Combine([k \in 1..Len(col) |-> [i |-> col[k].i, v |-> col[k].v.xs[j]]], T.x, r, mask)])
+    [] OTHER -> LeafReduce(r, live, mask)
+
+StripOpt(T) == IF T.k = "opt" THEN T.x ELSE T
+\* xs: the elements (type T) of a list that sits PureDepthE(T) levels above the leaves
+RECURSIVE ReduceSeq(_, _, _, _, _, _)
+ReduceSeq(xs, T, negaxis, r, mask, keepdims) ==
+  IF negaxis = PureDepthE(T) THEN
+       LET c == Combine([k \in 1..Len(xs) |-> [i |-> k - 1, v |-> xs[k]]], T, r, mask) IN
+       IF keepdims = 1 THEN VList(<<c>>) ELSE c
+  ELSE VList([k \in 1..Len(xs) |->
+                IF IsNone(xs[k]) THEN VNone
+                ELSE ReduceSeq(xs[k].xs, StripOpt(T).x, negaxis, r, mask, keepdims)])
+
+\* Content::reduce: axis normalisation against the (uniform) depth, then the reduction
+HasRecOrUnion(T) == LET RECURSIVE has(_)
+                        has(U) == CASE U.k \in {"rec", "union"} -> TRUE
+                                    [] U.k \in {"var", "reg", "opt"} -> has(U.x)
+                                    [] OTHER -> FALSE
+                    IN has(T)
+VReduce(v, T, r, axis, mask, keepdims) ==
+  LET D == PureDepthE(T)
+      negaxis == IF axis >= 0 THEN D - axis ELSE -axis IN
+  IF HasRecOrUnion(T) THEN Unspec                     \* records/unions: not modelled here
+  ELSE IF negaxis < 1 \/ negaxis > D THEN Err
+  ELSE Ok(ReduceSeq(v.xs, T, negaxis, r, mask, keepdims))
 
 =============================================================================
